@@ -150,7 +150,8 @@ class MySQLLoadQueryBuilder:
         return querystring
 
     def _load_file_sql(self, ctx: SqlContext) -> str:
-        return "LOAD DATA LOCAL INFILE '{}'".format(self._load_file)
+        # the file name is a string literal: quotes and backslashes in it must not end it
+        return "LOAD DATA LOCAL INFILE {}".format(MySQLValueWrapper(self._load_file).get_value_sql(ctx))
 
     def _into_table_sql(self, ctx: SqlContext) -> str:
         table = cast(Table, self._into_table)
